@@ -23,6 +23,7 @@ def load(path):
     name = "h_" + os.path.splitext(os.path.basename(path))[0]
     sp = importlib.util.spec_from_file_location(name, path)
     mod = importlib.util.module_from_spec(sp)
+    sys.modules[name] = mod
     sp.loader.exec_module(mod)
     return mod
 
@@ -66,7 +67,33 @@ def gen_value(rng, ann, g):
     raise TypeError("cannot generate %r" % (ann,))
 
 
+def apply_stubs(mod, f):
+    """stubs={"pkg.mod:func": "harnessFunction"}: the callee is replaced by its contract natively too"""
+    import importlib
+
+    undo = []
+    for q, fname in (f._lemma_opts.get("stubs") or {}).items():
+        modname, attr = q.split(":")
+        m = importlib.import_module(modname)
+        owner = m
+        parts = attr.split(".")
+        for p in parts[:-1]:
+            owner = getattr(owner, p)
+        undo.append((owner, parts[-1], getattr(owner, parts[-1])))
+        setattr(owner, parts[-1], getattr(mod, fname))
+    return undo
+
+
 def run_one(f, kwargs):
+    undo = apply_stubs(sys.modules[f.__module__], f)
+    try:
+        return _run_one(f, kwargs)
+    finally:
+        for owner, name, orig in undo:
+            setattr(owner, name, orig)
+
+
+def _run_one(f, kwargs):
     try:
         f(**kwargs)
         return "pass", None
